@@ -162,6 +162,19 @@ def case_random_block(case):
                 else:
                     bad.append({"what": "target system not taken", "form": fname, "A": A, "B": B,
                                 "got_sys": si.sys_of(c.units.sys)})
+            # partial dictionary as target: the components left out are the documented defaults (µm, s, molecule), whatever
+            # was parsed, built or converted earlier in the process
+            keep = [k_ for k_ in range(3) if r.random() < 0.5]
+            Bp = tuple(B[k_] if k_ in keep else si.DEFAULT_SYS[k_] for k_ in range(3))
+            pdict = {("space", "time", "quantity")[k_]: B[k_] for k_ in keep}
+            cpd = q.convert(pdict)
+            stats["partial_dict_targets"] = stats.get("partial_dict_targets", 0) + 1
+            if si.sys_of(cpd.units.sys) != Bp:
+                bad.append({"what": "partial dictionary target: components left out are not the defaults", "target": pdict,
+                            "got_sys": si.sys_of(cpd.units.sys), "expected_sys": Bp})
+            elif not close(cpd.value, Fr(val) * si.factor(A, Bp, d3)):
+                bad.append({"what": "value", "form": "partial dict", "A": A, "B": Bp, "dim": d3, "val": val, "got": cpd.value,
+                            "expected": float(Fr(val) * si.factor(A, Bp, d3))})
             # there and back
             back = q.convert(mk_sys(U, B)).convert(mk_sys(U, A))
             stats["roundtrips"] += 1
